@@ -34,6 +34,41 @@ CMP = {ast.Lt: ast.LtE, ast.LtE: ast.Lt, ast.Gt: ast.GtE, ast.GtE: ast.Gt, ast.E
 BIN = {ast.Add: [ast.Sub], ast.Sub: [ast.Add], ast.Mult: [ast.Add, ast.Pow], ast.Pow: [ast.Mult], ast.Mod: [ast.Mult], ast.FloorDiv: [ast.Mult], ast.Div: [ast.Mult]}
 
 
+OPS = "A"  # "A": operators / constants / statements; "B": paired-name swaps, einsum specs, moveaxis arguments
+PAIRS = [("in_", "out_"), ("past", "future"), ("train", "val"), ("_a", "_b"), ("_x", "_y"), ("idx1", "idx2"), ("first", "last"), ("lhs", "rhs"), ("input", "output"), ("input", "target")]
+
+
+def partner(name):
+    for a, b in PAIRS:
+        for x, y in ((a, b), (b, a)):
+            if x.startswith("_"):
+                if name.endswith(x):
+                    return name[: -len(x)] + y
+            elif x in name:
+                return name.replace(x, y, 1)
+    return None
+
+
+def einsum_mutations(spec):
+    out = []
+    if "->" in spec:
+        lhs, rhs = spec.split("->")
+        letters = [i for i, ch in enumerate(rhs) if ch.isalpha()]
+        if len(letters) >= 2:
+            r = list(rhs)
+            i, j = letters[-2], letters[-1]
+            r[i], r[j] = r[j], r[i]
+            out.append(lhs + "->" + "".join(r))
+        ops = lhs.split(",")
+        l0 = [i for i, ch in enumerate(ops[0]) if ch.isalpha()]
+        if len(l0) >= 2:
+            o = list(ops[0])
+            i, j = l0[0], l0[1]
+            o[i], o[j] = o[j], o[i]
+            out.append(",".join(["".join(o)] + ops[1:]) + "->" + rhs)
+    return [x for x in out if x != spec]
+
+
 def owners():
     own = {}
     for f in sorted(glob.glob(os.path.join(HERE, "evidence", "C*.json"))):
@@ -102,12 +137,27 @@ class Gen(object):
             if isinstance(a, ast.Assert):
                 in_assert.update(id(x) for x in ast.walk(a))
 
+        in_default = set()
+        for a in ast.walk(fn):
+            if isinstance(a, (ast.FunctionDef, ast.AsyncFunctionDef, ast.Lambda)):
+                for dnode in list(a.args.defaults) + [d for d in a.args.kw_defaults if d is not None]:
+                    in_default.update(id(x) for x in ast.walk(dnode))
+
         def add(node, desc, f):
-            tag = " [in assert]" if id(node) in in_assert else ""
+            tag = " [in assert]" if id(node) in in_assert else (" [default argument]" if id(node) in in_default else "")
             self.points.append((q, props, "%s:%d %s%s" % (os.path.relpath(self.path, SRC), getattr(node, "lineno", 0), desc, tag), node, f))
 
+        local_names = {a.id for a in ast.walk(fn) if isinstance(a, ast.Name)} | {a.arg for a in ast.walk(fn) if isinstance(a, ast.arg)}
+        einsum_specs = set()
+        for a in ast.walk(fn):
+            if isinstance(a, ast.Call) and isinstance(a.func, ast.Attribute) and a.func.attr == "einsum" and a.args and isinstance(a.args[0], ast.Constant) and isinstance(a.args[0].value, str):
+                einsum_specs.add(id(a.args[0]))
         for n in ast.walk(fn):
             if id(n) in skip:
+                continue
+            if OPS == "B" and isinstance(n, (ast.Compare, ast.BinOp, ast.BoolOp, ast.UnaryOp, ast.Expr)):
+                continue
+            if OPS == "B" and isinstance(n, ast.Constant) and not isinstance(n.value, str):
                 continue
             if isinstance(n, ast.Compare) and len(n.ops) == 1 and type(n.ops[0]) in CMP:
                 new = CMP[type(n.ops[0])]
@@ -125,6 +175,13 @@ class Gen(object):
                 add(n, "`%s` -> %s" % (ast.unparse(n)[:60], new.__name__), lambda m, new=new: setattr(m, "op", new()))
             elif isinstance(n, ast.UnaryOp) and isinstance(n.op, (ast.Not, ast.USub)):
                 add(n, "`%s` operator dropped" % ast.unparse(n)[:60], lambda m: setattr(m, "op", ast.UAdd()) if isinstance(m.op, ast.USub) else setattr(m, "__drop_not__", True))
+            elif OPS == "B" and isinstance(n, ast.Name) and isinstance(n.ctx, ast.Load) and partner(n.id) in local_names:
+                add(n, "name `%s` -> `%s`" % (n.id, partner(n.id)), lambda m: setattr(m, "id", partner(m.id)))
+            elif OPS == "B" and isinstance(n, ast.Constant) and isinstance(n.value, str) and id(n) in einsum_specs:
+                for new in einsum_mutations(n.value):
+                    add(n, "einsum spec %r -> %r" % (n.value, new), lambda m, new=new: setattr(m, "value", new))
+            elif OPS == "B" and isinstance(n, ast.Call) and isinstance(n.func, ast.Attribute) and n.func.attr in ("moveaxis", "swapaxes") and len(n.args) == 3:
+                add(n, "`%s` source/destination swapped" % ast.unparse(n)[:60], lambda m: m.args.__setitem__(slice(1, 3), [m.args[2], m.args[1]]))
             elif isinstance(n, ast.Expr) and isinstance(n.value, ast.Call):
                 add(n, "statement `%s` deleted" % ast.unparse(n)[:60], lambda m: setattr(m, "value", ast.Constant(value=None)))
 
@@ -162,6 +219,9 @@ def run_mutant(job):
         undecided = []
         ran = []
         order = sorted(props, key=lambda p: COST.get(p, 5))
+        if MAX_OWNERS == 99 and len(order) > 1:
+            rest = [p for p in order if p != "C07"]
+            order = rest if any(p in rest for p in ("C09", "C20")) or not set(order) <= {"C07", "C09", "C20"} else order
         if len(order) > MAX_OWNERS:
             # the cheapest owners decide; the whole-model properties (C07, C09, C20) re-run the layer-level
             # obligations at a much higher price and are only consulted for code that nothing else covers
@@ -181,7 +241,7 @@ def run_mutant(job):
 
 
 def main(argv):
-    jobs, only, limit, out, jpc = 8, None, None, os.path.join(HERE, "selftest_sweep.json"), 2
+    jobs, only, limit, out, jpc, recheck = 8, None, None, os.path.join(HERE, "selftest_sweep.json"), 2, None
     i = 0
     while i < len(argv):
         if argv[i] == "--jobs":
@@ -192,6 +252,11 @@ def main(argv):
             limit = int(argv[i + 1]); i += 2
         elif argv[i] == "--out":
             out = argv[i + 1]; i += 2
+        elif argv[i] == "--ops":
+            global OPS
+            OPS = argv[i + 1]; i += 2
+        elif argv[i] == "--recheck":
+            recheck = argv[i + 1]; i += 2
         elif argv[i] == "--check-jobs":
             jpc = int(argv[i + 1]); i += 2
         else:
@@ -212,6 +277,14 @@ def main(argv):
     if limit:
         step = max(1, len(work) // limit)
         work = work[::step]
+    if recheck:
+        # second pass: the mutants the capped first pass did not kill, against every owner (C07 only when it is
+        # the sole whole-model owner left)
+        prev = [json.loads(l) for l in open(recheck)]
+        todo = {r["i"] for r in prev if r["status"] != "killed"}
+        global MAX_OWNERS
+        MAX_OWNERS = 99
+        work = [w for w in work if w[0] in todo]
     print("mutants: %d" % len(work), flush=True)
     res = []
     with ThreadPoolExecutor(jobs) as ex:
